@@ -94,6 +94,7 @@ def gen_cases(tier, seed):
         attrs = [(x, rng.randint(0, 1)) for x in labs if rng.random() < 0.6]
         cases.append(mk(fn, t, cached=rng.random() < 0.5, filt=filt, stop=stop, ml=ml, lo=bound(), hi=bound(),
                         attrs=attrs, value=rng.randint(0, 1)))
+    gen.sprinkle_adv(cases)
     dist = {"exhaustive_cases": nexh, "random_cases": nrand, "by_fn": {}, "by_tree_size": {}}
     for c in cases:
         dist["by_fn"][c["fn"]] = dist["by_fn"].get(c["fn"], 0) + 1
